@@ -80,6 +80,7 @@ struct simfd {
 	int handle; /* c<N> / t<N> / listener index */
 	/* epoll registration */
 	bool registered;
+	uint32_t interest;      /* events asked for at EPOLL_CTL_ADD / MOD */
 	void *data_ptr;
 	/* connection */
 	bool is_http;
@@ -390,6 +391,7 @@ int __wrap_epoll_ctl(int epfd, int op, int fd, struct epoll_event *ev)
 		if (s->registered) { errno = EEXIST; return -1; }
 		s->registered = true;
 		s->data_ptr = ev->data.ptr;
+		s->interest = ev->events;
 		out("EPCTL add %s", hname(fd));
 	} else if (op == EPOLL_CTL_DEL) {
 		if (!s->registered) { out("FAULT epoll_ctl DEL of unregistered %s", hname(fd)); errno = ENOENT; return -1; }
@@ -397,6 +399,7 @@ int __wrap_epoll_ctl(int epfd, int op, int fd, struct epoll_event *ev)
 		out("EPCTL del %s", hname(fd));
 	} else {
 		s->data_ptr = ev->data.ptr;
+		s->interest = ev->events;
 	}
 	return 0;
 }
@@ -541,9 +544,16 @@ int __wrap_timerfd_create(int clockid, int flags)
 
 int __wrap_timerfd_settime(int fd, int flags, const struct itimerspec *nv, struct itimerspec *ov)
 {
-	(void)flags; (void)ov;
+	(void)flags;
 	struct simfd *s = use(fd, "timerfd_settime");
 	if (!s || s->kind != K_TIMER) { errno = EBADF; return -1; }
+	if (ov != NULL) {
+		/* old value: the time left until the next expiration, zero for a timer that is disarmed or has run down */
+		unsigned long long left = (s->armed && s->deadline > now_ns) ? s->deadline - now_ns : 0;
+		memset(ov, 0, sizeof(*ov));
+		ov->it_value.tv_sec = (time_t)(left / 1000000000ULL);
+		ov->it_value.tv_nsec = (long)(left % 1000000000ULL);
+	}
 	if (nv->it_value.tv_nsec < 0 || nv->it_value.tv_nsec >= 1000000000L || nv->it_value.tv_sec < 0) {
 		out("TIMER %s set invalid sec=%ld nsec=%ld", hname(fd), (long)nv->it_value.tv_sec, (long)nv->it_value.tv_nsec);
 		errno = EINVAL;
@@ -1081,7 +1091,13 @@ int __wrap_epoll_wait(int epfd, struct epoll_event *events, int maxevents, int t
 					if (carry_n < 64) carry[carry_n++] = batch[i];
 					continue;
 				}
-				events[n].events = batch[i].events;
+				/* as the kernel: a peer that has shut down its side reports EPOLLRDHUP to whoever asked for it, and only
+				 * conditions the registration asked for (plus error and hang-up, which cannot be masked) are reported */
+				uint32_t evs = batch[i].events;
+				if (s->eof && (s->interest & EPOLLRDHUP)) evs |= EPOLLRDHUP;
+				evs &= (s->interest | EPOLLERR | EPOLLHUP);
+				if (evs == 0) continue;
+				events[n].events = evs;
 				events[n].data.ptr = s->data_ptr;
 				n++;
 			}
